@@ -183,7 +183,7 @@ def bb_shard(arg):
     st = core.Stats(ID)
     batch = []
     if prefix is None:
-        texts = [""] + SIGMA[:]            # lengths 0 and 1
+        texts = [""] + SIGMA[:] + SPECIAL_TEXTS   # lengths 0 and 1
         _guarded(st, texts, "blackbox")
         for t in ("a]", "[a", "(a)+(b)"):
             st.sample({"text": t, "via": "blackbox"})
@@ -199,6 +199,17 @@ def bb_shard(arg):
     return st
 
 
+# texts no short enumeration reaches: a regular expression which holds every
+# delimiter the stringifier could fall back on (written with one of its own),
+# very long runs, deep nesting
+_ALL_DELIMS = "/|_#@;:,`-+&0123456789"
+SPECIAL_TEXTS = [
+    "logs[.=~!^(0|1|2|3|4|5|6|7|8|9)[/|_#@;:,`+&-]+$!]",
+    "[a=~!%s!]" % _ALL_DELIMS, "/x[.=~?%s?]" % _ALL_DELIMS,
+    "[.!=~!%s!]" % _ALL_DELIMS, "(a[.=~!%s!])+(b)" % _ALL_DELIMS,
+    "[.=~/%s/]" % _ALL_DELIMS.replace("/", ""),
+    "a" * 5000, "a." * 2000, "[0]" * 1000, "\\" * 999,
+]
 KEYWORDS = ["has_child", "max", "min", "name", "parent", "unique", "distinct"]
 BLANKS = ["", " ", "\t", "\n", "\r", "\x0b", "\x0c", "\u00a0", "\u2003",
           "\\ ", "\\\t", "  ", " \t"]
